@@ -200,6 +200,7 @@ H_RUN = Harness(
                                 and (f["D"] <= 1 or f["N"] <= 2 + (f["D"] == 2)) and (f["dup"] == 0 or (f["N"] in (2, 3) and f["D"] == 1 and f["W"] == 2))
                                 and (f["glitch"] > 0) + (f["second"] > 0) + (f["dbl"] > 0) + (f["efn"] > 0) <= 1
                                 and (f["W"] <= 2 or f["second"] + f["dbl"] + f["efn"] == 0)       # three workers: plain runs and glitches only
+                                and (f["glitch"] == 0 or f["N"] <= 2 or (f["W"] <= 2 and f["D"] <= 1))   # glitches on three inputs: two workers, one death
                                 and (f["second"] == 0 or (f["N"] <= 3 and f["D"] <= 1)) and (f["efn"] == 0 or f["N"] <= 3)),
                      "extra_pre": ["(efn > 0) + (callsrc > 0) + (dbl > 0) + (second > 0) + (poison > 1) + (glitch > 0) <= 1",
                                    "second == 0 or (N <= 3 and D <= 1)", "efn == 0 or N <= 3",
